@@ -671,6 +671,62 @@ pub fn gen_envs(rng: &mut Rng, program: &[Stmt], inputs_json: &str) -> Vec<Scena
                 if cands.is_empty() {
                     continue;
                 }
+                {
+                    // a sub-expression that is written more than once in a statement, every
+                    // occurrence replaced by one name (`[1, x] .== [1, x]` -> `t .== t`)
+                    let mut found: Option<(usize, E, Vec<Vec<usize>>)> = None;
+                    for &i in &cands {
+                        let target = match &program[i] {
+                            Stmt::Expr(E::Assign(_, v)) => (**v).clone(),
+                            Stmt::Expr(e) => e.clone(),
+                            Stmt::Output(_, Some(v)) => v.clone(),
+                            _ => continue,
+                        };
+                        let mut paths = vec![];
+                        strict_paths(&target, &mut vec![], &mut paths);
+                        let big: Vec<&Vec<usize>> = paths.iter().filter(|p| size(get_path(&target, p)) >= 3).collect();
+                        for (a, pa) in big.iter().enumerate() {
+                            let same: Vec<Vec<usize>> = big.iter().skip(a + 1).filter(|pb| !pb.starts_with(pa) && get_path(&target, pb) == get_path(&target, pa)).map(|p| (*p).clone()).collect();
+                            if !same.is_empty() {
+                                let mut all = vec![(*pa).clone()];
+                                all.extend(same);
+                                found = Some((i, get_path(&target, pa).clone(), all));
+                                break;
+                            }
+                        }
+                        if found.is_some() {
+                            break;
+                        }
+                    }
+                    if let Some((i, sub, mut occ)) = found {
+                        let (target, rebuild): (E, Box<dyn Fn(E) -> Stmt>) = match &program[i] {
+                            Stmt::Expr(E::Assign(n, v)) => {
+                                let n = n.clone();
+                                ((**v).clone(), Box::new(move |e| Stmt::Expr(E::Assign(n.clone(), Box::new(e)))))
+                            }
+                            Stmt::Expr(e) => (e.clone(), Box::new(Stmt::Expr)),
+                            Stmt::Output(n, Some(v)) => {
+                                let n = n.clone();
+                                (v.clone(), Box::new(move |e| Stmt::Output(n.clone(), Some(e))))
+                            }
+                            _ => unreachable!(),
+                        };
+                        occ.sort();
+                        occ.reverse();
+                        let fresh = format!("ld{}", i);
+                        let mut replaced = target.clone();
+                        for p in &occ {
+                            if *get_path(&replaced, p) == sub {
+                                replaced = replace_path(&replaced, p, id(&fresh));
+                            }
+                        }
+                        let mut items = p_items(program);
+                        let pos = items.iter().position(|it| it.role == Role::P(i)).unwrap();
+                        items[pos].stmt = rebuild(replaced);
+                        items.insert(pos, Item::plain(Role::Hoist(i), Stmt::Expr(assign(&fresh, sub))));
+                        envs.push(base("let-abstract-duplicates", vec![ThreadPlan { hash_seed: 0, clock: ClockScript::canonical(), sessions: vec![items] }], vec![0]));
+                    }
+                }
                 if rng.chance(1, 2) {
                     // every literal in a strict position of one statement bound to a name at once:
                     // behaviour keyed on the syntactic form of an operand (a fast path for
@@ -740,7 +796,22 @@ pub fn gen_envs(rng: &mut Rng, program: &[Stmt], inputs_json: &str) -> Vec<Scena
                         continue;
                     }
                     let fresh = format!("lt{}", i);
-                    let replaced = replace_path(&target, &path, id(&fresh));
+                    let mut replaced = replace_path(&target, &path, id(&fresh));
+                    // when the same sub-expression occurs more than once (in strict positions),
+                    // sometimes every occurrence is replaced by the one name
+                    if size(&sub) >= 2 && rng.chance(1, 2) {
+                        let mut all = vec![];
+                        strict_paths(&target, &mut vec![], &mut all);
+                        let mut others: Vec<Vec<usize>> = all.into_iter().filter(|p| *p != path && !p.starts_with(&path) && !path.starts_with(p) && *get_path(&target, p) == sub).collect();
+                        // replace deeper / later paths first so that earlier paths stay valid
+                        others.sort();
+                        others.reverse();
+                        for p in others {
+                            if *get_path(&replaced, &p) == sub {
+                                replaced = replace_path(&replaced, &p, id(&fresh));
+                            }
+                        }
+                    }
                     let mut items = p_items(program);
                     let pos = items.iter().position(|it| it.role == Role::P(i)).unwrap();
                     items[pos].stmt = rebuild(replaced);
@@ -1219,7 +1290,7 @@ pub fn run_one(seed: u64, run: u64, agg: &mut Batch, keep_hashes: bool) {
         for t in &sc.threads {
             agg.c.distinct("hash_seeds", &t.hash_seed.to_string());
         }
-        if matches!(sc.kind.as_str(), "hash-seed" | "clock" | "let-abstract" | "let-abstract-literals" | "eval-twice") || (sc.kind == "process-history" && !prior.is_empty()) {
+        if matches!(sc.kind.as_str(), "hash-seed" | "clock" | "let-abstract" | "let-abstract-literals" | "let-abstract-duplicates" | "eval-twice") || (sc.kind == "process-history" && !prior.is_empty()) {
             nontrivial = true;
         }
         if nontrivial {
